@@ -82,6 +82,7 @@ pub fn generate(prop: &str, rng: &mut Rng, n: usize) -> Vec<Case> {
         "C13" => gen_pwops(rng, n, &mut out, &["c13_add", "c13_sub"]),
         "C15" => gen_pwops(rng, n, &mut out, &["c15_ops"]),
         "C11" => gen_pwops(rng, n, &mut out, &["c11_integral"]),
+        "C17" => gen_c17(rng, n, &mut out),
         "C16" => gen_sel(rng, n, &mut out, &["c16_hist_nan", "c16_v_nan", "c02_direct"]),
         _ => {}
     }
@@ -105,6 +106,7 @@ pub fn run_case(c: &Case) -> Option<String> {
     if k == "c04_spline" { return run_c04(&p); }
     if k == "c06_linear" { return run_c06(&p); }
     if k == "c13_add" || k == "c13_sub" || k == "c15_ops" || k == "c11_integral" { return run_pwops(k, &p); }
+    if k == "c17_approx" { return run_c17(&p); }
     if k == "c02_direct" || k == "c03_hist" || k == "c12_v" || k == "c16_hist_nan" || k == "c16_v_nan" { return run_sel(k, &p); }
     Some(format!("unknown case kind {}", k))
 }
@@ -1068,5 +1070,77 @@ fn gen_pwops(rng: &mut Rng, n: usize, out: &mut Vec<Case>, kinds: &[&str]) {
             _ => { v.push((rng.below(9) as f64) - 6.0); v.push((rng.below(9) as f64) - 4.0); }
         }
         out.push(case(kind, &v));
+    }
+}
+
+// ------------------------------------------------------------------------------------------ C17 (approx traits)
+// params: [type_id, eps, max_relative, nA, a.., nB, b..]; the value of the type is built from the number list (see build order below);
+// oracle: equal list lengths && f64::{abs_diff_eq, relative_eq} (approx's own) on every corresponding pair.
+fn run_c17(p: &[f64]) -> Option<String> {
+    use approx::{AbsDiffEq, RelativeEq};
+    let ty = p[0] as usize;
+    let (eps, mr) = (p[1], p[2]);
+    let na = p[3] as usize;
+    let a = &p[4..4 + na];
+    let nb = p[4 + na] as usize;
+    let b = &p[5 + na..5 + na + nb];
+    let o_abs = a.len() == b.len() && a.iter().zip(b.iter()).all(|(x, y)| x.abs_diff_eq(y, eps));
+    let o_rel = a.len() == b.len() && a.iter().zip(b.iter()).all(|(x, y)| x.relative_eq(y, eps, mr));
+    macro_rules! cmp { ($name:expr, $x:expr, $y:expr) => {{
+        let (x, y) = ($x, $y);
+        let g_abs = x.abs_diff_eq(&y, eps);
+        let g_rel = x.relative_eq(&y, eps, mr);
+        if g_abs != o_abs { return Some(format!("{}: abs_diff_eq(eps={:e}) is {} but the conjunction over the numbers {:?} / {:?} is {}", $name, eps, g_abs, a, b, o_abs)); }
+        if g_rel != o_rel { return Some(format!("{}: relative_eq(eps={:e}, max_relative={:e}) is {} but the conjunction over the numbers {:?} / {:?} is {}", $name, eps, mr, g_rel, a, b, o_rel)); }
+        None
+    }}; }
+    macro_rules! arr { ($t:ident, $n:expr, $v:expr) => {{ let mut q = [0.0f64; $n]; q.copy_from_slice(&$v[..$n]); $t(q) }}; }
+    let pw = |v: &[f64]| Piecewise { segments: v.chunks(3).map(|c| Segment { end: c[0], poly: Poly1([c[1], c[2]]) }).collect::<Vec<_>>() };
+    match ty {
+        0 => cmp!("Poly0", Poly0(a[0]), Poly0(b[0])),
+        1 => cmp!("Poly1", arr!(Poly1, 2, a), arr!(Poly1, 2, b)),
+        2 => cmp!("Poly2", arr!(Poly2, 3, a), arr!(Poly2, 3, b)),
+        3 => cmp!("Poly3", arr!(Poly3, 4, a), arr!(Poly3, 4, b)),
+        4 => cmp!("Poly4", arr!(Poly4, 5, a), arr!(Poly4, 5, b)),
+        5 => cmp!("Poly5", arr!(Poly5, 6, a), arr!(Poly5, 6, b)),
+        6 => cmp!("Poly6", arr!(Poly6, 7, a), arr!(Poly6, 7, b)),
+        7 => cmp!("Poly7", arr!(Poly7, 8, a), arr!(Poly7, 8, b)),
+        8 => cmp!("Poly8", arr!(Poly8, 9, a), arr!(Poly8, 9, b)),
+        9 => cmp!("PolyN", PolyN(a.to_vec()), PolyN(b.to_vec())),
+        10 => cmp!("Log<Poly2>", Log(arr!(Poly2, 3, a)), Log(arr!(Poly2, 3, b))),
+        11 => cmp!("IntOfLog<Poly1>", IntOfLog { k: a[0], poly: Poly1([a[1], a[2]]) }, IntOfLog { k: b[0], poly: Poly1([b[1], b[2]]) }),
+        12 => cmp!("IntOfLogPoly4", IntOfLogPoly4 { k: a[0], coeffs: [a[1], a[2], a[3], a[4]], u: a[5] }, IntOfLogPoly4 { k: b[0], coeffs: [b[1], b[2], b[3], b[4]], u: b[5] }),
+        13 => cmp!("Segment<Poly1>", Segment { end: a[0], poly: Poly1([a[1], a[2]]) }, Segment { end: b[0], poly: Poly1([b[1], b[2]]) }),
+        14 => cmp!("Piecewise<Poly1>", pw(a), pw(b)),
+        15 => cmp!("Piecewise<Log<Poly1>>", Piecewise { segments: a.chunks(3).map(|c| Segment { end: c[0], poly: Log(Poly1([c[1], c[2]])) }).collect::<Vec<_>>() }, Piecewise { segments: b.chunks(3).map(|c| Segment { end: c[0], poly: Log(Poly1([c[1], c[2]])) }).collect::<Vec<_>>() }),
+        _ => Some("unknown type id".into()),
+    }
+}
+
+fn gen_c17(rng: &mut Rng, n: usize, out: &mut Vec<Case>) {
+    let n = n.min(6000);
+    let fixed = [1usize, 2, 3, 4, 5, 6, 7, 8, 9, 0, 3, 3, 6, 3, 0, 0];
+    while out.len() < n {
+        let ty = rng.below(16) as usize;
+        let (na, nb) = match ty {
+            9 => { let k = rng.below(6) as usize; (k, if rng.below(4) == 0 { rng.below(6) as usize } else { k }) }
+            14 | 15 => { let k = 3 * rng.below(5) as usize; (k, if rng.below(4) == 0 { 3 * rng.below(5) as usize } else { k }) }
+            _ => (fixed[ty], fixed[ty]),
+        };
+        let eps = [0.0, f64::EPSILON, 0.25, 1.0, 16.0][rng.below(5) as usize];
+        let mr = [0.0, f64::EPSILON, 0.125, 0.5][rng.below(4) as usize];
+        let a: Vec<f64> = (0..na).map(|_| match rng.below(4) { 0 => (rng.below(9) as f64) - 4.0, 1 => rng.float(), 2 => (rng.below(5) as f64) * 1e300 - 2e300, _ => (rng.below(33) as f64) * 0.125 }).collect();
+        // b: a copy of a with 0..2 single-number perturbations of assorted sizes (so that one field decides)
+        let mut b: Vec<f64> = (0..nb).map(|i| if i < a.len() { a[i] } else { rng.float() }).collect();
+        for _ in 0..rng.below(3) {
+            if b.is_empty() { break; }
+            let i = rng.below(b.len() as u64) as usize;
+            b[i] = match rng.below(6) { 0 => b[i] + 0.125, 1 => b[i] + 2.0, 2 => b[i] * 1.25, 3 => f64::from_bits(b[i].to_bits().wrapping_add(1)), 4 => -b[i], _ => b[i] + 1e-17 };
+        }
+        let mut v = vec![ty as f64, eps, mr, na as f64];
+        v.extend_from_slice(&a);
+        v.push(nb as f64);
+        v.extend_from_slice(&b);
+        out.push(case("c17_approx", &v));
     }
 }
